@@ -2331,6 +2331,8 @@ class EdgeQLSourceGenerator(codegen.SourceGenerator):
             from_clause = f'USING {node.code.language} FUNCTION '
             self._write_keywords(from_clause)
             self.write(f'{node.code.from_function!r}')
+        elif node.code.from_expr:
+            self._write_keywords(f'USING {node.code.language} EXPRESSION')
         elif node.code.language is qlast.Language.EdgeQL:
             if node.nativecode:
                 self._write_keywords('USING')
